@@ -190,6 +190,15 @@ def coq_make(targets: Sequence[str], jobs: int = 16, timeout: int = 1500) -> Tup
         ensure_makefile()
         rc, out = sh(["timeout", str(timeout), "make", "-f", "Makefile.coq", f"-j{jobs}", "-k", *targets], cwd=COQ,
                      timeout=timeout + 30)
+        if rc != 0 and "No rule to make target" in out:
+            # a .v file listed in the cached dependency file vanished meanwhile (a refused translation of ANOTHER
+            # property removes its Gen/X.v): rebuild the file list and the dependencies, then retry once
+            for stale in (COQ / ".Makefile.coq.d", COQ / "_CoqProject"):
+                if stale.exists():
+                    stale.unlink()
+            ensure_makefile()
+            rc, out = sh(["timeout", str(timeout), "make", "-f", "Makefile.coq", f"-j{jobs}", "-k", *targets], cwd=COQ,
+                         timeout=timeout + 30)
     return rc == 0, out
 
 
@@ -494,6 +503,13 @@ class Report:
         print(f"[{self.prop}] {status} tier={self.tier} seed={self.seed} obligations={n_ok}/{n_ob} "
               f"cases={self.evaluations} distinct_nontrivial={len(self.distinct)} wall={ev['wall_s']}s", flush=True)
         return 1 if self.violations else 0
+
+
+def coqchk(rep: "Report", prop: str) -> None:
+    """thorough tier: re-check the compiled theorems (and everything they depend on) with the independent checker"""
+    rc, out = sh(["timeout", "1500", "coqchk", "-o", "-silent", "-Q", ".", "Krrood", f"Krrood.Props.{prop}"], cwd=COQ, timeout=1530)
+    ok = rc == 0 and "Axioms: <none>" in out and "type-in-type: <none>" in out and "unsafe (co)fixpoints: <none>" in out
+    rep.oblige(f"coqchk:Props/{prop}.vo", ok, "axioms <none>, no type-in-type, no unsafe fixpoints" if ok else out[-400:])
 
 
 COQ_TRUSTED = [
